@@ -549,7 +549,8 @@ def raw_random(rng: random.Random, n: int) -> bytes:
     return bytes(out[:n])
 
 
-HOSTILE_TARGETS = [b"http://[::1", b"http://[::1]x/", b"http://]/", b"http://[/", b"http://[]/", b"http://[zz]/", b"http://a:b/",
+HOSTILE_TARGETS = [b"http://a:+80/", b"http://a:8_0/", b"http://[::1]:+1/", b"a:+80", b"a:8_0", b"http://a:080/", b"http://a: 80/",
+                   b"http://[::1", b"http://[::1]x/", b"http://]/", b"http://[/", b"http://[]/", b"http://[zz]/", b"http://a:b/",
                    b"http://a:99999999999/", b"http://a:-1/", b"http://a:/", b"http://:80/", b"http://@/", b"http://u:p@h/",
                    b"http://h\\x/", b"http://h%zz/", b"http://\xe9/", b"http://h:80:90/", b"http://[::1]:x/", b"//[::1", b"//a:b/",
                    b"/\x00", b"/\xff\xff", b"/%", b"/%0", b"/%zz", b"/" + b"a" * 300, b"/?" + b"q" * 300, b"http://" + b"h" * 300 + b"/",
